@@ -428,3 +428,43 @@ Definition s_read_from (T : tables) (esc : byte -> byte) (one : bool) (s : sstat
   let '(s', pos) := s_scan T esc one s text base in
   if stopped one (s_core s') then result_of (s_core s') pos else result_of (s_finish s') (base + length text).
 Definition s_read_gen (T : tables) (esc : byte -> byte) (one : bool) (text : list byte) : result := s_read_from T esc one s0 text 0.
+
+(* =============== cl:read-from-string (pkg/cl/read-from-string.go), on top of ReadOne =============== *)
+(* objs in front of what a later read yields, positions counted from p *)
+Definition prepend (objs : list tree) (p : nat) (r : result) : result :=
+  match r with ROk o q => ROk (objs ++ o) (p + q) | RErr e o => RErr e (objs ++ o) end.
+
+(* the bytes the function steps over after the object: blank, newline, tab, carriage return *)
+Definition is_ws (b : byte) : bool := N.eqb b 32 || N.eqb b 10 || N.eqb b 9 || N.eqb b 13.
+(* `for ; pos < len(buf); pos++ { switch buf[pos] {...} }` with rest = buf[pos:] *)
+Fixpoint skip_ws (rest : list byte) (pos : nat) : nat :=
+  match rest with
+  | b :: r => if is_ws b then skip_ws r (S pos) else pos
+  | [] => pos
+  end.
+
+Inductive rfs_result :=
+| FObj (t : tree) (pos : nat)          (* the object and the position reported with it *)
+| FEof (pos : nat)                     (* nothing but white space and comments: the eof value and a position *)
+| FErr (e : err) (objs : list tree)    (* the reader's error (objs: what a whole read had completed before it) *)
+| FBounds.                             (* "the bounding indices ... are not valid" *)
+
+(* keys = false: the call has the string only, (read-from-string s); the bounds are not looked at.
+   keys = true: an optional or keyword argument is present: the string is cut to [start, end) first.
+   The model takes the string as its bytes: for ASCII text (the guard) characters are bytes.
+   As the code runs: ReadOne on the substring, start added to its position, and then the white space
+   loop indexes the SUBSTRING with the position in the whole string (known finding C02-rfs-start-skip). *)
+Definition rfs_m (T : tables) (esc : byte -> byte) (keys : bool) (text : list byte) (start : nat) (end_ : option nat) (pw : bool) : rfs_result :=
+  let n := length text in
+  let e := match end_ with Some e => e | None => n end in
+  if keys && ((n <=? start) || (n <? e) || (e <? start)) then FBounds
+  else
+    let buf := if keys then slice text start e else text in
+    let start := if keys then start else 0 in
+    match m_read_whole T esc true buf with
+    | RErr er objs => FErr er objs
+    | ROk [] p => FEof (start + p)
+    | ROk (t :: _) p =>
+        let pos := start + p in
+        FObj t (if keys && pw then pos else skip_ws (skipn pos buf) pos)
+    end.
